@@ -264,3 +264,22 @@ def judge_trackbuild(ctx, cases, prop):
             ex = ctx.extra.setdefault("drift_examples", [])
             if len(ex) < 5:
                 ex.append({"case": c["id"], "model": want, "code": [n["sp"] for n in rec["notes"]], "raised": rec["raised"]})
+
+
+def platform_constant_tracks(prop, r):
+    """Sections whose ticks cluster around the constants a platform knows (2^31, 2^32, 2^53, 2^63 = sys.maxsize + 1, 2^64), the
+    LAST note tick exactly on, one below and one above each of them: "at any tick".  The text carries the huge ticks, the record
+    the ticks relative to a base (TLC's integers are 32-bit; what a section means does not depend on where it starts)."""
+    cases = []
+    for e in (31, 32, 53, 63, 64):
+        for d in (-1, 0, 1):
+            last = 2**e + d
+            base = last - 40
+            body = []
+            for j, off in enumerate((0, 1, 2, 10, 11, 30, 39, 40)):
+                combo = [(0,), (1, 2), "open", (3,), (0, 4), (2,), (1,), (0,)][j]
+                body += nt.group_lines(off, combo, {}, forced=(j in (3, 6)), tap=(j == 5))
+            body.insert(3, ("S", 1, 20))
+            body.insert(6, ("E", 10, "solo"))
+            cases.append({"id": f"{prop}-2^{e}{d:+d}", "res": 100000000, "body": body, "tempo": [[0, 120000]], "tick_base": base})
+    return cases
